@@ -357,6 +357,13 @@ def collect(res, scs, files, outs, replay_dir):
                 res.setdefault("known_where", {}).setdefault(key, [])
                 if len(res["known_where"][key]) < 5:
                     res["known_where"][key].append(kn["b"])
+                # keep the first occurrences replayable: check.py turns a key that known-findings.jsonl lists as
+                # *fixed* back into a violation
+                rp = os.path.join(replay_dir, f"proc-known-{key}-s{kn['b']}.json")
+                if len(res.setdefault("known_replays", {}).setdefault(key, [])) < 2:
+                    json.dump({"group": "proc", "scenario": sc_by_s.get(kn["b"]), "violations": [{"known_key": key}],
+                               "trace": scenario_events([files[fidx]], kn["b"])}, open(rp, "w"))
+                    res["known_replays"][key].append(rp)
         by_s = {}
         for v in viols:
             by_s.setdefault(v["b"], []).append(v)
